@@ -207,6 +207,7 @@ def shard(args):
     if kind == 'exc':
         ms = [m for m in ms if m['fc'] in (1, 3, 0x10, 0x2B, 0x7F) or m['code'] in (1, 2, 3, 4)] if tier == 'quick' else ms
     nontriv = set()
+    ms = [m for m in ms if len(pdu.encode(m)) <= 253]       # a message is at most one 253-byte PDU
     for m in ms:
         cname = bind.cls_name(m)
         acc.inc('evaluations')
